@@ -131,6 +131,10 @@ impl ArrayToArrayCodecTraits for TransposeCodec {
             decoded_representation.num_elements(),
             decoded_representation.data_type().size(),
         )?;
+        // An order of another length than the chunk dimensionality is an error, not a panic
+        if self.order.0.len() != decoded_representation.shape().len() {
+            return Err(CodecError::Other("Invalid shape".to_string()));
+        }
 
         match bytes {
             ArrayBytes::Variable(bytes, offsets) => {
@@ -173,6 +177,10 @@ impl ArrayToArrayCodecTraits for TransposeCodec {
             decoded_representation.num_elements(),
             decoded_representation.data_type().size(),
         )?;
+        // An order of another length than the chunk dimensionality is an error, not a panic
+        if self.order.0.len() != decoded_representation.shape().len() {
+            return Err(CodecError::Other("Invalid shape".to_string()));
+        }
 
         match bytes {
             ArrayBytes::Variable(bytes, offsets) => {
